@@ -62,7 +62,8 @@ class Render(Harness):
 
     @classmethod
     def build(cls, L, cfg):
-        return tilesvc.make_layer(L, cfg, dimensions={'time': ['2020', '2021'], 'elevation': ['0', '100']})
+        return tilesvc.make_layer(L, cfg, dimensions={'time': ['2020', '2021'], 'elevation': ['0', '100']},
+                                  fmt=cfg.get('layer_format', 'image/png'))
 
     @classmethod
     def inputs(cls, ctx, cfg):
@@ -191,6 +192,7 @@ class TileLimit(Harness):
 
 
 CANARIES = {
+    'Render:mixed': [],
     'TileAddr': [
         ('limit_tile accepts x == grid width', {'mapproxy.grid': [(
             "        if x < 0 or y < 0 or x >= grid[0] or y >= grid[1]:\n            return None\n        return x, y, z",
@@ -210,7 +212,12 @@ CANARIES = {
             "        if tile_request.format != self.format:\n            raise RequestError('invalid format (%s). this tile set only supports (%s)'\n                               % (tile_request.format, self.format), request=tile_request,\n                               code='InvalidParameterValue')\n\n        tile_coord = self._internal_tile_coord(tile_request, use_profiles=use_profiles)\n\n        coverage_intersects = False\n        if coverage:\n            tile_bbox = self.grid.tile_bbox(tile_coord)\n            if coverage.contains(tile_bbox, self.grid.srs):\n                pass\n            elif coverage.intersects(tile_bbox, self.grid.srs):\n                coverage_intersects = True\n            else:\n                return self.empty_response()\n\n        dimensions = self.checked_dimensions(tile_request)\n",
             "        tile_coord = self._internal_tile_coord(tile_request, use_profiles=use_profiles)\n        coverage_intersects = False\n        dimensions = {}\n")]},
          dict(grid='merc_ll', origin='sw', use_profiles=True, format='png', dims={'time': '1999'})),
+        ('mixed-format layers accept any format', {'mapproxy.service.tile': [(
+            "        if tile_request.format != self.format:\n            raise RequestError('invalid format (%s). this tile set only supports (%s)'\n                               % (tile_request.format, self.format), request=tile_request,\n                               code='InvalidParameterValue')\n\n        tile_coord = self._internal_tile_coord(tile_request, use_profiles=use_profiles)\n\n        coverage_intersects = False\n        if coverage:",
+            "        if not self._mixed_format and tile_request.format != self.format:\n            raise RequestError('invalid format (%s). this tile set only supports (%s)'\n                               % (tile_request.format, self.format), request=tile_request,\n                               code='InvalidParameterValue')\n\n        tile_coord = self._internal_tile_coord(tile_request, use_profiles=use_profiles)\n\n        coverage_intersects = False\n        if coverage:")]},
+         dict(grid='merc_ll', origin='sw', use_profiles=True, format='jpeg', dims={}, layer_format='mixed')),
     ],
+    'Render2': [],
     'TileLimit': [
         ('limit compared after load', {'mapproxy.layer': [(
             "        if self.max_tile_limit and num_tiles >= self.max_tile_limit:",
@@ -232,6 +239,8 @@ def obligations(tier, seed):
         dict(format='png', dims={}), dict(format='jpeg', dims={}), dict(format='png', dims={'time': '2021'}),
         dict(format='png', dims={'time': '1999'}), dict(format='png', dims={'time': 'default', 'elevation': '100'}),
         dict(format='png', dims={'elevation': '../../x'}),
+        dict(format='jpeg', dims={}, layer_format='mixed'),      # a mixed-format cache advertises png only
+        dict(format='png', dims={}, layer_format='mixed'),
     ]
     for gname in (names if tier == 'thorough' else ['merc_ll', 'utm_ul', 'sqrt2_ll']):
         for i, rc in enumerate(render_cfgs):
@@ -250,6 +259,7 @@ def obligations(tier, seed):
     for h, c in twins.items():
         specs.append(spec(MOD, h, 'twin/' + h, kind='witness', cfg=dict(c, seed=seed)))
     for h, cans in CANARIES.items():
+        h = h.split(':')[0].rstrip('2')
         for label, patches, c in (cans if tier == 'thorough' else cans[:2]):
             c = dict(c, seed=seed)
             if 'size' in c:
